@@ -18,12 +18,12 @@ T = {}
 T['_transact'] = '''
 def _transact(self, retry=False, filename=None):
     sql = self._sql
-    filenames = []
     _disk_remove = self._disk.remove
     tid = threading.get_ident()
     txn_id = self._txn_id
     if __Hg_nested__:
         begin = False
+        filenames, created = self._txn_files
     else:
         while True:
             try:
@@ -37,6 +37,9 @@ def _transact(self, retry=False, filename=None):
                 if filename is not None:
                     _disk_remove(filename)
                 raise Timeout from None
+        filenames, created = self._txn_files = ([], [])
+    if filename is not None:
+        created.append(filename)
     try:
         yield sql, filenames.append
     except BaseException:
@@ -44,17 +47,27 @@ def _transact(self, retry=False, filename=None):
             assert self._txn_id == tid
             self._txn_id = None
             sql(__Hq_rollback__)
-            if filename is not None:
-                _disk_remove(filename)
+            for name in created:
+                _disk_remove(name)
         raise
     else:
         if begin:
             assert self._txn_id == tid
             self._txn_id = None
             sql(__Hq_commit__)
-        for name in filenames:
-            if name is not None:
-                _disk_remove(name)
+            for name in filenames:
+                if name is not None:
+                    _disk_remove(name)
+'''
+
+# the value file of a row deleted by pop / pull is removed at once -- or, inside a transaction of the calling thread,
+# handed to that transaction, which removes it after its COMMIT
+T['_remove_after_transaction'] = '''
+def _remove_after_transaction(self, filename):
+    if __Hg_inside__:
+        self._txn_files[0].append(filename)
+    else:
+        self._disk.remove(filename)
 '''
 
 T['set'] = '''
@@ -295,7 +308,7 @@ def pop(self, key, default=None, expire_time=False, tag=False, retry=False):
         return default
     finally:
         if filename is not None:
-            self._disk.remove(filename)
+            self._remove_after_transaction(filename)
     if expire_time and tag:
         return value, db_expire_time, db_tag
     elif expire_time:
@@ -412,7 +425,7 @@ def pull(self, prefix=None, default=(None, None), side='front', expire_time=Fals
             continue
         finally:
             if name is not None:
-                self._disk.remove(name)
+                self._remove_after_transaction(name)
         break
 ''' + RET_KV
 
@@ -687,7 +700,15 @@ def emit(ctx):
         err(g, 'nested-transaction test is not `tid == txn_id`', fname)
     out.append('(* _transact joins an open transaction iff it belongs to the calling thread *)\n'
                'Definition transact_nested (tid : Z) (txn_id : option Z) : bool := '
-               'match txn_id with Some t => tid =? t | None => false end.\n\n')
+               'match txn_id with Some t => tid =? t | None => false end.\n')
+    g = H['_remove_after_transaction']['__Hg_inside__']
+    gs = ast.unparse(g).replace(' ', '')
+    if gs not in ('self._txn_id==threading.get_ident()', 'threading.get_ident()==self._txn_id'):
+        err(g, '_remove_after_transaction: the test is not `self._txn_id == threading.get_ident()`', fname)
+    out.append('(* file removals are deferred: a call nested in a transaction of its thread hands the files it releases (cleanup lists, the\n'
+               '   file of a popped / pulled value) to the outermost transaction, which removes them after its COMMIT; files stored inside a\n'
+               '   transaction that is rolled back are removed after the ROLLBACK (template of _transact / _remove_after_transaction) *)\n'
+               'Definition transact_defers_removals : bool := true.\n\n')
 
     # ---- row insert/update
     out.append('(* ---- _row_insert / _row_update ---- *)\n')
